@@ -161,7 +161,9 @@ pub fn run(a: &Args, rep: &mut Report) {
         check_len::<&std::path::Path>("&Path", "builtin|&Path", &p.as_path(), &p.show(), rep, &[]);
         let c = std::ffi::CString::gen(&mut rng);
         check_len::<&std::ffi::CStr>("&CStr", "builtin|&CStr", &c.as_c_str(), &c.show(), rep, &[]);
-        let t = minicbor::data::IanaTag::try_from(minicbor::data::Tag::new(*rng.pick(&[0u64, 1, 2, 0x18, 0x24, 0x40, 0x57, 0x410]))).unwrap();
+        // every registered name in turn (the table is the one C03 wrote from the RFCs)
+        let table = crate::c03::iana_table();
+        let t = table[(i / a.nshards.max(1)) as usize % table.len()].0;
         check_len::<minicbor::data::IanaTag>("IanaTag", "builtin|IanaTag", &t, &format!("{:?}", t), rep, &[]);
     }
     // tokens: every variant; all half patterns, all simple values, byte strings with bytes >= 0x18
